@@ -285,4 +285,7 @@ def run(scn):
 
 
 if __name__ == '__main__':
+    if os.environ.get('VERIF_RANDOMIZE'):
+        import jsonvals
+        jsonvals.randomize(int(os.environ['VERIF_RANDOMIZE']) + hash(os.path.basename(sys.argv[1])) % 1000)
     json.dump([run(s) for s in json.load(open(sys.argv[1]))], open(sys.argv[2], 'w'))
